@@ -224,7 +224,24 @@ pub fn render(spec: &EnumSpec) -> String {
     if spec.const_into_str {
         for (i, v) in spec.variants.iter().enumerate() {
             if !v.disabled {
-                o.push_str(&format!("const CIS_{}: &'static str = {}.into_str();\n", i, render_default_value(spec, i)));
+                // a value with a String inside needs a destructor, which a const initialiser cannot run on a temporary:
+                // such values live in a static and the const observation borrows that
+                let owns_heap = match &v.kind {
+                    Kind::Unit => false,
+                    Kind::Tuple(ts) => ts.iter().any(|t| matches!(t, FieldTy::Str)),
+                    Kind::Named(fs) => fs.iter().any(|f| matches!(f.ty, FieldTy::Str)),
+                };
+                if owns_heap {
+                    o.push_str(&format!(
+                        "static CISV_{i}: {n}{g} = {v};\nconst CIS_{i}: &'static str = CISV_{i}.into_str();\n",
+                        i = i,
+                        n = spec.name,
+                        g = spec.generics_inst(),
+                        v = render_default_value(spec, i)
+                    ));
+                } else {
+                    o.push_str(&format!("const CIS_{}: &'static str = {}.into_str();\n", i, render_default_value(spec, i)));
+                }
             }
         }
     }
